@@ -426,7 +426,7 @@ def witness_cover(E, con):
 def verify_contract(E, con, thorough=False):
     res = FunctionResult(con.key)
     t0 = time.time()
-    fi = E.repo.get(con.key)
+    fi = E.repo.get(con.body_key or con.key)
     if con.skip_body:
         res.notes.append("body not verified here (abstract/external contract)")
         return res, []
